@@ -399,7 +399,21 @@ def run(rep):
               "f(t) = d0 t + (3y - 2 d0 - d1) t^2 + (-2y + d0 + d1) t^3", line=md.lineno)
     ins = pq.find(('tuple', tuple(x for x in cp.env.values() if isinstance(x, tuple))), lambda e: pq.call_named(e, "insert") and len(e[2]) >= 3 and
                   pq.call_named(e[2][0], "dot") and pq.same(e[2][1], "0") and pq.same(e[2][2], "0"))
-    rep.check(bool(ins), "R08.e", "data/dutils.py", "monthly2daily", "cubic: zero constant coefficient prepended (f(0) = 0)", "", line=md.lineno)
+    pool_ = ('tuple', tuple(x for x in cp.env.values() if isinstance(x, tuple)))
+    any_ins = pq.find(pool_, lambda e: pq.call_named(e, "insert") and len(e[2]) >= 3 and pq.call_named(e[2][0], "dot"))
+    stacks = pq.find(pool_, lambda e: (pq.call_named(e, "vstack") or pq.call_named(e, "concatenate") or pq.call_named(e, "row_stack")) and len(e[2]) >= 1 and
+                     e[2][0][0] == 'tuple' and len(e[2][0][1]) == 2 and any(pq.call_named(x, "dot") for x in e[2][0][1]))
+    cons_ = "cubic: zero constant coefficient prepended (f(0) = 0)"
+    if ins:
+        rep.proved("R08.e", "data/dutils.py", "monthly2daily", cons_, line=md.lineno)
+    elif any_ins:
+        rep.violation("R08.e", "data/dutils.py", "monthly2daily", cons_, f"np.insert at position / with value {show(any_ins[0][2][1])}, {show(any_ins[0][2][2])}", line=md.lineno)
+    elif stacks:
+        first, second = stacks[0][2][0][1]
+        zero_first = pq.call_named(first, "zeros") and pq.call_named(second, "dot")
+        rep.check(zero_first, "R08.e", "data/dutils.py", "monthly2daily", cons_, f"stacked as {show(first)[:40]} then {show(second)[:40]}", line=md.lineno)
+    else:
+        rep.undecided("R08.e", "data/dutils.py", "monthly2daily", cons_, "construction of the coefficient array not recognised", line=md.lineno)
     return EXPLANATION
 
 
